@@ -1104,6 +1104,30 @@ func refMethodNames(typ string) map[string]bool {
 }
 
 func init() {
+	// the function that takes a resource entry out of the indexes: the one that deletes from the alias index
+	roleFns["(*rescache.ResourceSubscription).unregister"] = func(p *Prog) *ssa.Function {
+		fLinks := p.Field("rescache.EventSubscription.links")
+		if fLinks == nil {
+			return nil
+		}
+		var hit *ssa.Function
+		for _, g := range p.Repo {
+			if g.Parent() != nil {
+				continue
+			}
+			for _, in := range instrsOf(g) {
+				if call, ok := isBuiltinCall(in, "delete"); ok {
+					if f, _ := fieldLoad(call.Call.Args[0]); f != nil && f == fLinks {
+						if hit != nil && hit != g {
+							return nil
+						}
+						hit = g
+					}
+				}
+			}
+		}
+		return hit
+	}
 	// the eviction callback of the cache: the method handed to the timer queue when the cache starts
 	roleFns["(*rescache.Cache).mqUnsubscribe"] = func(p *Prog) *ssa.Function {
 		start := p.fnNoRole("(*rescache.Cache).Start")
@@ -1171,4 +1195,4 @@ func init() {
 }
 
 // roleFnNames: the anchors that have a role-based resolver (kept apart from roleFns to avoid an initialisation cycle).
-var roleFnNames = map[string]bool{"(*nats.Client).close": true, "(*server.wsConn).outputWorker": true, "(*rescache.Cache).mqUnsubscribe": true}
+var roleFnNames = map[string]bool{"(*nats.Client).close": true, "(*server.wsConn).outputWorker": true, "(*rescache.Cache).mqUnsubscribe": true, "(*rescache.ResourceSubscription).unregister": true}
